@@ -5,6 +5,7 @@ package main
 // every step.  Model: coq/Store.v (srun).
 
 import (
+	"runtime"
 	"encoding/json"
 	"errors"
 	"fmt"
@@ -258,7 +259,7 @@ type kvRun struct {
 	cells    map[string]bool
 	notes    []string
 	received int
-	manualExpiry int32
+	manualExpiry int64 // the goroutine that is running the timer's callback on the history's behalf (0: none)
 	url      string
 	win      *windowRun
 	fullDefault []sgbucket.FeedEvent // every event the full live feed of the default collection received
@@ -1188,6 +1189,31 @@ func (k *kvRun) doKv(st Step) (opT Term, respT Term, err error) {
 
 var kvSerial int64
 
+// the id of the calling goroutine (from the first line of its stack trace: "goroutine 123 [running]:")
+func goid() int64 {
+	var buf [64]byte
+	n := runtime.Stack(buf[:], false)
+	var id int64
+	for _, ch := range buf[len("goroutine "):n] {
+		if ch < '0' || ch > '9' {
+			break
+		}
+		id = id*10 + int64(ch-'0')
+	}
+	return id
+}
+
+// Between two histories no hook is installed by the history; the expiry timer of a bucket that is being closed may
+// still fire (its callback has been started by the runtime, Stop comes too late for it) and would run on the
+// closed store - the recorded finding KF-C20-panic, which kills the process.  Park such late firings for good.
+func parkLateTimers() {
+	rosmar.VerifSetHook(func(point string, args ...any) {
+		if point == "expiry.fire" {
+			select {}
+		}
+	})
+}
+
 // execKv runs one history under a watchdog: if the implementation panics or blocks, the case is
 // emitted with Fatal set (the prefix observed so far is kept) and the process must not be reused.
 func execKv(in kvInput, scratch string) (Case, error) {
@@ -1263,12 +1289,12 @@ func execKvInner(in kvInput, scratch string, prog *kvProgress) (Case, error) {
 		case "expiry.fire":
 			// the history decides when the expiry timer fires (steps of kind "expire" call the timer's
 			// callback synchronously); a firing of the real timer is parked for the rest of the process
-			if atomic.LoadInt32(&k.manualExpiry) == 0 {
+			if atomic.LoadInt64(&k.manualExpiry) != goid() {
 				select {}
 			}
 		}
 	})
-	defer rosmar.VerifSetHook(nil)
+	defer parkLateTimers()
 	old := rosmar.MaxDocSize
 	rosmar.MaxDocSize = in.MaxDoc
 	defer func() { rosmar.MaxDocSize = old }()
@@ -1626,9 +1652,9 @@ func execKvInner(in kvInput, scratch string, prog *kvProgress) (Case, error) {
 			k.cells["query|"+st.Q] = true
 		case "expire":
 			opT = C("SExpire")
-			atomic.StoreInt32(&k.manualExpiry, 1)
+			atomic.StoreInt64(&k.manualExpiry, goid())
 			k.handles[0].VerifRunExpiry()
-			atomic.StoreInt32(&k.manualExpiry, 0)
+			atomic.StoreInt64(&k.manualExpiry, 0)
 			respT = C("ROk")
 		case "reopen":
 			if !in.OnDisk {
